@@ -127,6 +127,72 @@ def compare_region(inp_body, out_body):
     return None
 
 
+ZOO = """int g1;
+int f(int a, int b)
+{
+   int r = 0;
+   switch (a)
+   {
+   case 1:
+   {
+      r = b;
+   }
+   break;
+   case 2:
+   {
+      r = 2;
+   }
+   return r;
+   case 3:
+      r = 3;
+      break;
+   default:
+      break;
+   }
+   if (a)
+      r++;
+   else
+   {
+      r--;
+   }
+   if (b)
+   {
+      r = 1;
+   }
+   else if (a)
+   {
+      r = 2;
+   }
+   for (;;)
+   {
+      break;
+   }
+   while (a)
+      a--;
+   do
+   {
+      b--;
+   }
+   while (b);
+   return (r);
+}
+enum E
+{
+   E1,
+   E2
+};
+struct S
+{
+   int m1;
+   int m2;
+};
+#define M(x) \\
+   do { x; } while (0)
+void h(void)
+{
+   ;
+}"""
+
 OPTSETS = [
     {},
     {"indent_columns": 3, "indent_with_tabs": 0, "nl_max": 2, "sp_arith": "force", "sp_assign": "force"},
@@ -168,7 +234,7 @@ def run(ctx):
             alt_same = "\n".join(body_lines(rng, len(body)))
             ext = {"C": ".c", "CPP": ".cpp", "JAVA": ".java"}[lang]
             p = sc.write(text, ext)
-            for o in ([rng.choice(OPTSETS) for _ in range(2)] if not thorough else OPTSETS):
+            for o in ([OPTSETS[i % len(OPTSETS)], rng.choice(OPTSETS)] if not thorough else OPTSETS):
                 opts = dict(o)
                 if marker == "custom":
                     opts["disable_processing_cmt"] = '" OFF-HERE"'
@@ -181,6 +247,20 @@ def run(ctx):
                 if t2 != text and len(alt_same.split("\n")) == len(body):
                     q = sc.write(t2, ext)
                     jobs.append(pipeline.Job("gen%d-twin" % i, cfg, q, lang, dict(meta, twin_of=len(jobs) - 1, text=t2, body=alt_same.split("\n"))))
+        # fixed universe: a small "zoo" of the statement forms the code-modifying options look for; the region is put into EVERY gap
+        # between two lines of it, under EVERY option set (mod_ passes that look across a region for the token on its other side)
+        zoo = ZOO.split("\n")
+        zbody = ["  raw   text ( here", "\tsecond  line }  ", "   third ;line"]
+        for pos in range(1, len(zoo)):
+            if zoo[pos - 1].rstrip().endswith("\\"):
+                continue
+            for oi, o in enumerate(OPTSETS):
+                if not thorough and (pos + oi) % 2:
+                    continue
+                text = "\n".join(zoo[:pos] + ["/* *INDENT-OFF* */"] + zbody + ["/* *INDENT-ON* */"] + zoo[pos:]) + "\n"
+                p = sc.write(text, ".c")
+                meta = {"text": text, "body": zbody, "off": OFF, "on": ON, "opts": dict(o), "marker": "comment", "unterminated": False}
+                jobs.append(pipeline.Job("zoo%d-%d" % (pos, oi), sc.cfg(None, dict(o)), p, "C", meta))
         ctx.log("runs:", len(jobs))
         pipeline.run_jobs(exe, jobs)
         for j in jobs:
